@@ -40,6 +40,7 @@ import (
 	exotestutil "github.com/ExocoreNetwork/exocore/testutil"
 	assetskeeper "github.com/ExocoreNetwork/exocore/x/assets/keeper"
 	assetstypes "github.com/ExocoreNetwork/exocore/x/assets/types"
+	avskeeper "github.com/ExocoreNetwork/exocore/x/avs/keeper"
 	avstypes "github.com/ExocoreNetwork/exocore/x/avs/types"
 	delegationkeeper "github.com/ExocoreNetwork/exocore/x/delegation/keeper"
 	delegationtypes "github.com/ExocoreNetwork/exocore/x/delegation/types"
@@ -1432,6 +1433,122 @@ func (c *c09Env) doEndBlockItems(tags []string) {
 	c.nCase++
 }
 
+// ---- operator epoch hook: one voting-power update per AVS ending the epoch --------------------------------------------
+// n AVSs on the same epoch identifier with operators opted in; a random subset (never all, never none; the directed
+// variants put the failing one FIRST in address order) is made to fail - one of its assets is a staking asset without
+// any oracle token, so the price lookup of UpdateVotingPower returns an error; the operators' stake changes, so every
+// healthy AVS has something to update. The hook with all AVSs is compared with the hook from whose work list the failing
+// AVSs were taken (C09_endblock_items_all).
+func (c *c09Env) doEpochHookItems(failFirst bool, tags []string) {
+	app := c.env.App
+	base, _ := c.env.Ctx.CacheContext()
+	base = base.WithGasMeter(sdk.NewInfiniteGasMeter())
+	const epochID = epochstypes.MinuteEpochID
+	noPrice := "0x00000000000000000000000000000000000c09f5"
+	_, noPriceID := assetstypes.GetStakerIDAndAssetIDFromStr(101, "", noPrice)
+	if !app.AssetsKeeper.IsStakingAsset(base, noPriceID) {
+		if err := app.AssetsKeeper.SetStakingAssetInfo(base, &assetstypes.StakingAssetInfo{
+			AssetBasicInfo:     assetstypes.AssetInfo{Name: "NoPrice", Symbol: "NOP", Address: noPrice, Decimals: 6, LayerZeroChainID: 101, MetaInfo: "no oracle token"},
+			StakingTotalAmount: sdkmath.NewInt(0)}); err != nil {
+			panic("c09 hook items: asset: " + err.Error())
+		}
+	}
+	n := 2 + c.rng.Intn(3)
+	var avss []string
+	for i := 0; i < n; i++ {
+		addr := common.BigToAddress(big.NewInt(int64(0xc09d00 + c.nCase*8 + i))).String()
+		task := common.BigToAddress(big.NewInt(int64(0xc09c00 + c.nCase*8 + i))).String()
+		if err := app.AVSManagerKeeper.UpdateAVSInfo(base, &avstypes.AVSRegisterOrDeregisterParams{AvsName: "hookavs", Action: avskeeper.RegisterAction, EpochIdentifier: epochID,
+			AvsAddress: addr, AssetID: []string{c.env.AssetID}, TaskAddr: task, UnbondingPeriod: 7, MinSelfDelegation: 0}); err != nil {
+			panic("c09 hook items: register: " + err.Error())
+		}
+		for _, op := range c.env.Operators {
+			if err := app.OperatorKeeper.OptIn(base, op, addr); err != nil {
+				panic("c09 hook items: opt in: " + err.Error())
+			}
+		}
+		if err := app.OperatorKeeper.UpdateVotingPower(base, addr); err != nil {
+			panic("c09 hook items: initial voting power: " + err.Error())
+		}
+		avss = append(avss, addr)
+	}
+	fail := make([]bool, n)
+	nf := 0
+	for nf == 0 || nf == n {
+		nf = 0
+		for i := range fail {
+			fail[i] = c.rng.Intn(2) == 0
+			if failFirst {
+				fail[i] = i == 0
+			}
+			if fail[i] {
+				nf++
+			}
+		}
+	}
+	pattern := ""
+	for i, a := range avss {
+		if !fail[i] {
+			pattern += "S"
+			continue
+		}
+		pattern += "F"
+		if err := app.AVSManagerKeeper.UpdateAVSInfo(base, &avstypes.AVSRegisterOrDeregisterParams{AvsName: "hookavs", Action: avskeeper.UpdateAction,
+			AvsAddress: a, AssetID: []string{c.env.AssetID, noPriceID}}); err != nil {
+			panic("c09 hook items: update: " + err.Error())
+		}
+	}
+	// the operators' stake changes before the epoch ends
+	st := c.itemStaker(40)
+	amt := sdkmath.NewInt(int64(3_000_000 + c.rng.Intn(5_000_000)))
+	if err := app.AssetsKeeper.PerformDepositOrWithdraw(base, assetsDW{101, assetstypes.DepositLST, c.assets[0], st, amt}.p()); err != nil {
+		panic("c09 hook items: deposit: " + err.Error())
+	}
+	if err := app.DelegationKeeper.DelegateTo(base, &delegationtypes.DelegationOrUndelegationParams{ClientChainID: 101, AssetsAddress: c.assets[0], StakerAddress: st, OperatorAddress: c.env.Operators[0], OpAmount: amt,
+		LzNonce: 950000 + uint64(c.nCase), TxHash: common.BytesToHash(seedBytes("c09hk", c.nCase))}); err != nil {
+		panic("c09 hook items: delegate: " + err.Error())
+	}
+	ei, _ := app.EpochsKeeper.GetEpochInfo(base, epochID)
+	epochNumber := ei.CurrentEpoch + 1
+	runHook := func(ctx sdk.Context, remove bool) (d c09Digest, panicked bool) {
+		drop := func() {
+			for i, a := range avss {
+				if fail[i] {
+					_ = app.AVSManagerKeeper.DeleteAVSInfo(ctx, a)
+				}
+			}
+		}
+		if remove {
+			drop()
+		}
+		func() {
+			defer func() {
+				if x := recover(); x != nil {
+					panicked = true
+				}
+			}()
+			app.OperatorKeeper.EpochsHooks().AfterEpochEnd(ctx, epochID, epochNumber)
+		}()
+		if !remove {
+			drop()
+		}
+		return c09Snapshot(c.env, ctx), panicked
+	}
+	a, _ := base.CacheContext()
+	b, _ := base.CacheContext()
+	before := c09Snapshot(c.env, base)
+	da, pa := runHook(a, false)
+	db, _ := runHook(b, true)
+	classes, keys := c09Diff(da, db)
+	// non-vacuity: the healthy AVSs really had something to update
+	upd, _ := c09Diff(before, db)
+	c.w.Count(fmt.Sprintf("hookitems.updated_classes=%d", len(upd)))
+	term := cApp("CItems", cApp("mkItems", cNat(n), cNat(nf), c09Strs(classes), cBool(pa)))
+	c.w.Add(term, map[string]interface{}{"suite": "c09", "kind": "EpochHookItems", "n": n, "failing": nf, "pattern": pattern, "diff": classes, "diff_keys": keys, "panic": pa, "tags": c09Tags(tags), "nt": true})
+	c.w.Count("kind=EpochHookItems")
+	c.nCase++
+}
+
 type assetsDW struct {
 	chain  uint64
 	action assetstypes.CrossChainOpType
@@ -1520,6 +1637,11 @@ func runC09(a *Args) error {
 	for i := 0; i < 6; i++ {
 		c.doEndBlockItems(nil)
 	}
+	// operator epoch hook, one item per AVS: the failing AVS first in address order, then random subsets
+	c.doEpochHookItems(true, nil)
+	c.doEpochHookItems(true, nil)
+	c.doEpochHookItems(false, nil)
+	c.doEpochHookItems(false, nil)
 	// (5) balance-change bitmap whose second staker is rejected after the first one has been updated
 	c.doDepositWithdraw("DepositNST", nil, 101, gw, pub(2), st1, eth(32))
 	c.doDepositWithdraw("DepositNST", nil, 101, gw, pub(3), st2, eth(32))
@@ -1783,7 +1905,11 @@ func runC09(a *Args) error {
 				}
 			}
 		default:
-			c.doEndBlockItems(nil)
+			if rng.Intn(2) == 0 {
+				c.doEpochHookItems(rng.Intn(2) == 0, nil)
+			} else {
+				c.doEndBlockItems(nil)
+			}
 		}
 	}
 	return nil
